@@ -633,16 +633,26 @@ function describeObjectMember(
 
 function describeMember(
   ctx: DescribeContext,
-  printedKey: string,
+  printedKey: string | ((valueExpr: string) => string),
   value: Runtype,
 ): { docText?: string; member: string } {
   const optionalMark = value instanceof OptionalFieldRuntype ? "?" : "";
   const description = value.describe(ctx);
+  const key = typeof printedKey === "string" ? printedKey : printedKey(description.typeExpr);
 
   return {
     docText: description.docText,
-    member: `${printedKey}${optionalMark}: ${description.typeExpr}`,
+    member: `${key}${optionalMark}: ${description.typeExpr}`,
   };
+}
+
+// the key variable of a printed mapped type must not capture a type called K that the key or value type mentions
+function mappedTypeKeyVariable(mentioned: string): string {
+  let name = "K";
+  while (new RegExp(`(^|[^A-Za-z0-9_$])${name}([^A-Za-z0-9_$]|$)`).test(mentioned)) {
+    name += "_";
+  }
+  return name;
 }
 
 function describeIndexObjectMember(
@@ -657,7 +667,13 @@ function describeIndexObjectMember(
     hasNamedMembers &&
     !(value instanceof OptionalFieldRuntype) &&
     (keyExpr === "string" || keyExpr === "number" || keyExpr.startsWith("`"));
-  return describeMember(ctx, asIndexSignature ? `[key: ${keyExpr}]` : `[K in ${keyExpr}]`, value);
+  return describeMember(
+    ctx,
+    asIndexSignature
+      ? `[key: ${keyExpr}]`
+      : (valueExpr) => `[${mappedTypeKeyVariable(`${keyExpr} ${valueExpr}`)} in ${keyExpr}]`,
+    value,
+  );
 }
 
 function renderObjectMember(member: { docText?: string; member: string }): string {
